@@ -48,17 +48,18 @@ HdrClient  == << LBR, LBR >> \o K_client \o << RBR, RBR >>         \* [[client]]
 (* Part 1a: writings and their declared meaning *)
 
 \* a token is what the author typed for one character of the value
-Mean == [ a |-> CHa, Z |-> CHZ, sp |-> SP, sq |-> SQ, dq |-> DQ, bs |-> BS, hash |-> HASH, eq |-> EQ,
+Mean == [ a |-> CHa, Z |-> CHZ, A |-> 65, z |-> 122, sp |-> SP, sq |-> SQ, dq |-> DQ, bs |-> BS, hash |-> HASH, eq |-> EQ,
           ee |-> EACUTE, nl |-> LF, tab |-> TAB,
           edq |-> DQ, ebs |-> BS, en |-> LF, et |-> TAB, eu |-> EACUTE, eU |-> CHa ]
 
 \* ... and how it appears in the file
-Text == [ a |-> << CHa >>, Z |-> << CHZ >>, sp |-> << SP >>, sq |-> << SQ >>, dq |-> << DQ >>, bs |-> << BS >>,
+Text == [ a |-> << CHa >>, Z |-> << CHZ >>, A |-> << 65 >>, z |-> << 122 >>, sp |-> << SP >>, sq |-> << SQ >>, dq |-> << DQ >>, bs |-> << BS >>,
           hash |-> << HASH >>, eq |-> << EQ >>, ee |-> << EACUTE >>, nl |-> << LF >>, tab |-> << TAB >>,
           edq |-> << BS, DQ >>, ebs |-> << BS, BS >>, en |-> << BS, 110 >>, et |-> << BS, 116 >>,
           eu  |-> << BS, 117, 48, 48, 69, 57 >>,                    \* é
           eU  |-> << BS, 85, 48, 48, 48, 48, 48, 48, 54, 49 >> ]    \* \U00000061
 
+\* ("A" and "z" exist only for the case-twin user names of MCConfig.FamCase; they are not enumerated)
 BasicToks     == { "a", "Z", "sp", "sq", "hash", "eq", "ee", "edq", "ebs", "en", "et", "eu" }
 LiteralToks   == { "a", "Z", "sp", "dq", "bs", "hash", "eq", "ee" }
 MlBasicToks   == BasicToks \cup { "nl", "dq" }
@@ -327,10 +328,12 @@ VARIABLES
     registry,    \* RegistryBasedAuthenticator.clients: the keys "user:pass" (before base64)
     exported,    \* per distinct username: [name, text] the client configuration lines
     \* start-up machine (part 3)
-    row, stage, verdict
+    row, stage, verdict,
+    seen,        \* TlsHostsSettings::validate: the set of host names threaded through the four lists
+    lst          \* ... and the list being validated (1..4)
 
 cvars == << file, doc, idx, clients, outcome, registry, exported >>
-svars == << row, stage, verdict >>
+svars == << row, stage, verdict, seen, lst >>
 vars == << cvars, svars >>
 
 Key(u, p) == u \o << COLON >> \o p
@@ -357,7 +360,7 @@ CredsInit ==
     /\ file \in Files
     /\ doc = NoDoc
     /\ idx = 1 /\ clients = << >> /\ outcome = "unparsed" /\ registry = {} /\ exported = << >>
-    /\ row = "none" /\ stage = "none" /\ verdict = "none"
+    /\ row = "none" /\ stage = "none" /\ verdict = "none" /\ seen = {} /\ lst = 0
 
 ParseDoc ==                                                                      \* read_to_string + content.parse::<Document>()
     /\ outcome = "unparsed"
@@ -394,10 +397,24 @@ FirstOf(name) == clients[CHOOSE i \in DOMAIN clients : clients[i][1] = name /\ \
 
 Names == { c[1] : c \in Range(clients) }
 
+\* names somebody may ask an export for that are *not* configured but look like a configured one
+Upper(v) == [ i \in DOMAIN v |-> IF v[i] >= 97 /\ v[i] <= 122 THEN v[i] - 32 ELSE v[i] ]
+Lower(v) == [ i \in DOMAIN v |-> IF v[i] >= 65 /\ v[i] <= 90 THEN v[i] + 32 ELSE v[i] ]
+SwapFirst(v) == IF v = << >> THEN v
+                ELSE [ v EXCEPT ![1] = IF @ >= 97 /\ @ <= 122 THEN @ - 32 ELSE IF @ >= 65 /\ @ <= 90 THEN @ + 32 ELSE @ ]
+TrimWs(v) ==
+    LET RECURSIVE L(_)  L(x) == IF x # << >> /\ (IsWs(Head(x)) \/ Head(x) = LF) THEN L(Tail(x)) ELSE x
+        RECURSIVE R(_)  R(x) == IF x # << >> /\ (IsWs(x[Len(x)]) \/ x[Len(x)] = LF) THEN R(SubSeq(x, 1, Len(x) - 1)) ELSE x
+    IN R(L(v))
+NearNames(ns) == (UNION { { Upper(n), Lower(n), SwapFirst(n), TrimWs(n), n \o << SP >>, << SP >> \o n } : n \in ns }) \ ns
+
 Export ==                                                                        \* main.rs -c <name>: build + compose_toml
     /\ outcome = "loaded"
     /\ outcome' = "exported"
-    /\ exported' = [ n \in Names |-> [ utext |-> WriteStr(FirstOf(n)[1]), ptext |-> WriteStr(FirstOf(n)[2]) ] ]
+    \* a configured name gets its own pair; any other name is refused ("There is no user config ..."), nothing is printed
+    /\ exported' = [ n \in Names \cup NearNames(Names) |->
+                        IF n \in Names THEN [ ok |-> TRUE, utext |-> WriteStr(FirstOf(n)[1]), ptext |-> WriteStr(FirstOf(n)[2]) ]
+                        ELSE [ ok |-> FALSE, utext |-> << >>, ptext |-> << >> ] ]
     /\ UNCHANGED << file, doc, idx, clients, registry, svars >>
 
 CredsNext == ParseDoc \/ SyntaxError \/ NotArray \/ RefuseNotString \/ RefuseEmptyUser \/ RefuseEmptyPass
@@ -417,17 +434,14 @@ ScanAgrees ==
 Authenticates(u, p) == Key(u, p) \in registry
 
 \* near misses a wrong reader would produce: the raw token text, trimmed / quote-stripped values, cross pairs
-Trimmed(v) ==
-    LET RECURSIVE L(_)  L(x) == IF x # << >> /\ (IsWs(Head(x)) \/ Head(x) = LF) THEN L(Tail(x)) ELSE x
-        RECURSIVE R(_)  R(x) == IF x # << >> /\ (IsWs(x[Len(x)]) \/ x[Len(x)] = LF) THEN R(SubSeq(x, 1, Len(x) - 1)) ELSE x
-    IN R(L(v))
+Trimmed(v) == TrimWs(v)
 Without(v, c) == SelectSeq(v, LAMBDA x : x # c)
 
 Misreadings(w) ==
     IF w.kind # "str" THEN { RenderValue(w) }
     ELSE LET v == TomlValue(w)  raw == Flat(w.toks) IN
          { raw, Trimmed(v), Trimmed(raw), Without(raw, DQ), Trimmed(Without(raw, DQ)), Without(v, DQ),
-           Without(v, BS), RenderValue(w), v \o << SP >>, << SP >> \o v }
+           Without(v, BS), RenderValue(w), v \o << SP >>, << SP >> \o v, Upper(v), Lower(v), SwapFirst(v) }
 
 UV(e) == IF e.u.kind = "str" THEN TomlValue(e.u) ELSE RenderValue(e.u)
 PV(e) == IF e.p.kind = "str" THEN TomlValue(e.p) ELSE RenderValue(e.p)
@@ -449,13 +463,20 @@ ExactPairs ==
 RefuseOnlyIfAllowed == outcome = "refused" => MayRefuse(file)
 LoadIfPlain == (CredsDone /\ ~ MayRefuse(file)) => outcome = "exported"
 
-\* the exported configuration reads back as an accepted pair with that name
+\* An export is produced exactly for the configured names; it reads back as that very name with a password
+\* written for that name, and the pair it carries authenticates.  A name that is not configured (however
+\* close: other letter case, padding) gets nothing - never another user's password.
+WrittenNames(f) == { pr[1] : pr \in WrittenPairs(f) }
 ExportSame ==
     outcome = "exported" =>
-        \A n \in DOMAIN exported :
-            LET u == ScanValue(exported[n].utext, 1)  p == ScanValue(exported[n].ptext, 1) IN
-            /\ u.ok /\ u.kind = "str" /\ u.val = n
-            /\ p.ok /\ p.kind = "str" /\ << n, p.val >> \in WrittenPairs(file)
+        /\ DOMAIN exported = WrittenNames(file) \cup NearNames(WrittenNames(file))
+        /\ \A n \in DOMAIN exported :
+            /\ exported[n].ok <=> n \in WrittenNames(file)
+            /\ exported[n].ok =>
+                LET u == ScanValue(exported[n].utext, 1)  p == ScanValue(exported[n].ptext, 1) IN
+                /\ u.ok /\ u.kind = "str" /\ u.val = n
+                /\ p.ok /\ p.kind = "str" /\ << n, p.val >> \in WrittenPairs(file)
+                /\ Authenticates(n, p.val)
 
 \* what the wizard wrote is read back with identical meaning
 WizardRoundTrip ==
@@ -486,34 +507,110 @@ Listen == [ dflt  |-> [ text |-> "",                        loopback |-> FALSE ]
             lo4b  |-> [ text |-> "127.8.9.1:443",           loopback |-> TRUE ],
             lo6   |-> [ text |-> "[::1]:8443",              loopback |-> TRUE ] ]
 
-\* hosts.toml variants: lists of [sect, name, cert, key]; cert/key name fixture files of the harness
+(* hosts.toml: a sequence of hosts [sect, name, cert, key]; sect is one of the four lists, cert / key name
+   fixture files of the harness whose content is described by Pem.                                       *)
 H(sect, name, cert, key) == [ sect |-> sect, name |-> name, cert |-> cert, key |-> key ]
-Hosts == [
-    ok1         |-> [ hs |-> << H("main_hosts", "h1", "cert.pem", "key.pem") >>, dup |-> FALSE, unloadable |-> FALSE, stg |-> "none" ],
-    ok2         |-> [ hs |-> << H("main_hosts", "h1", "cert.pem", "key.pem"), H("main_hosts", "h2", "cert.pem", "key.pem") >>, dup |-> FALSE, unloadable |-> FALSE, stg |-> "none" ],
-    okAll       |-> [ hs |-> << H("main_hosts", "h1", "both.pem", "both.pem"), H("ping_hosts", "h2", "cert.pem", "key.pem"),
-                                H("speedtest_hosts", "h3", "cert.pem", "key.pem"), H("reverse_proxy_hosts", "h4", "cert.pem", "key.pem") >>, dup |-> FALSE, unloadable |-> FALSE, stg |-> "none" ],
-    dupMain     |-> [ hs |-> << H("main_hosts", "h1", "cert.pem", "key.pem"), H("main_hosts", "h1", "cert.pem", "key.pem") >>, dup |-> TRUE, unloadable |-> FALSE, stg |-> "validate" ],
-    dupMainPing |-> [ hs |-> << H("main_hosts", "h1", "cert.pem", "key.pem"), H("ping_hosts", "h1", "cert.pem", "key.pem") >>, dup |-> TRUE, unloadable |-> FALSE, stg |-> "validate" ],
-    dupPingSpeed |-> [ hs |-> << H("main_hosts", "h1", "cert.pem", "key.pem"), H("ping_hosts", "h2", "cert.pem", "key.pem"), H("speedtest_hosts", "h2", "cert.pem", "key.pem") >>, dup |-> TRUE, unloadable |-> FALSE, stg |-> "validate" ],
-    dupMainRp   |-> [ hs |-> << H("main_hosts", "h1", "cert.pem", "key.pem"), H("reverse_proxy_hosts", "h1", "cert.pem", "key.pem") >>, dup |-> TRUE, unloadable |-> FALSE, stg |-> "validate" ],
-    certMissing |-> [ hs |-> << H("main_hosts", "h1", "nonexistent.pem", "key.pem") >>, dup |-> FALSE, unloadable |-> TRUE, stg |-> "parse" ],
-    keyMissing  |-> [ hs |-> << H("main_hosts", "h1", "cert.pem", "nonexistent.pem") >>, dup |-> FALSE, unloadable |-> TRUE, stg |-> "parse" ],
-    certGarbage |-> [ hs |-> << H("main_hosts", "h1", "garbage.pem", "key.pem") >>, dup |-> FALSE, unloadable |-> TRUE, stg |-> "validate" ],
-    certIsKey   |-> [ hs |-> << H("main_hosts", "h1", "key.pem", "key.pem") >>, dup |-> FALSE, unloadable |-> TRUE, stg |-> "validate" ],
-    keyGarbage  |-> [ hs |-> << H("main_hosts", "h1", "cert.pem", "garbage.pem") >>, dup |-> FALSE, unloadable |-> TRUE, stg |-> "validate" ],
-    keyIsCert   |-> [ hs |-> << H("main_hosts", "h1", "cert.pem", "cert.pem") >>, dup |-> FALSE, unloadable |-> TRUE, stg |-> "validate" ],
-    pingKeyGarbage |-> [ hs |-> << H("main_hosts", "h1", "cert.pem", "key.pem"), H("ping_hosts", "h2", "cert.pem", "garbage.pem") >>, dup |-> FALSE, unloadable |-> TRUE, stg |-> "validate" ],
-    certBadBase64 |-> [ hs |-> << H("main_hosts", "h1", "badb64.pem", "key.pem") >>, dup |-> FALSE, unloadable |-> TRUE, stg |-> "validate" ] ]
+HostLists == << "main_hosts", "ping_hosts", "speedtest_hosts", "reverse_proxy_hosts" >>
 
-Rp == [ absent     |-> [ text |-> "", valid |-> TRUE, stg |-> "none" ],
-        valid      |-> [ text |-> "[reverse_proxy]\nserver_address = \"127.0.0.1:8080\"\npath_mask = \"/api\"\n", valid |-> TRUE, stg |-> "none" ],
-        validH3    |-> [ text |-> "[reverse_proxy]\nserver_address = \"[::1]:8080\"\npath_mask = \"/\"\nh3_backward_compatibility = true\n", valid |-> TRUE, stg |-> "none" ],
-        port0      |-> [ text |-> "[reverse_proxy]\nserver_address = \"127.0.0.1:0\"\npath_mask = \"/api\"\n", valid |-> FALSE, stg |-> "validate" ],
-        maskEmpty  |-> [ text |-> "[reverse_proxy]\nserver_address = \"127.0.0.1:8080\"\npath_mask = \"\"\n", valid |-> FALSE, stg |-> "validate" ],
-        maskNoSlash |-> [ text |-> "[reverse_proxy]\nserver_address = \"127.0.0.1:8080\"\npath_mask = \"api/\"\n", valid |-> FALSE, stg |-> "validate" ],
-        addrBad    |-> [ text |-> "[reverse_proxy]\nserver_address = \"localhost\"\npath_mask = \"/api\"\n", valid |-> FALSE, stg |-> "parse" ],
-        noMask     |-> [ text |-> "[reverse_proxy]\nserver_address = \"127.0.0.1:8080\"\n", valid |-> FALSE, stg |-> "parse" ] ]
+Pem == ("cert.pem"        :> [ exists |-> TRUE,  certs |-> TRUE,  key |-> FALSE ])
+    @@ ("key.pem"         :> [ exists |-> TRUE,  certs |-> FALSE, key |-> TRUE ])
+    @@ ("both.pem"        :> [ exists |-> TRUE,  certs |-> TRUE,  key |-> TRUE ])
+    @@ ("garbage.pem"     :> [ exists |-> TRUE,  certs |-> FALSE, key |-> FALSE ])     \* not PEM at all
+    @@ ("badb64.pem"      :> [ exists |-> TRUE,  certs |-> FALSE, key |-> FALSE ])     \* CERTIFICATE block that is not base64
+    @@ ("nonexistent.pem" :> [ exists |-> FALSE, certs |-> FALSE, key |-> FALSE ])
+
+\* what "duplicate" and "unloadable" mean, declaratively: host names are unique across ALL four lists
+\* (any two positions, same list or not), every host has a certificate chain and a private key
+HostsDup(hs) == \E i, j \in DOMAIN hs : i < j /\ hs[i].name = hs[j].name
+HostUnloadable(h) == ~ Pem[h.cert].certs \/ ~ Pem[h.key].key
+HostsUnloadable(hs) == \E i \in DOMAIN hs : HostUnloadable(hs[i])
+HostsMissingFile(hs) == \E i \in DOMAIN hs : ~ Pem[hs[i].cert].exists \/ ~ Pem[hs[i].key].exists
+\* TlsHostsSettings is acceptable (builder, start-up, reload)
+HostsAccepted(hs) == ~ HostsDup(hs) /\ ~ HostsUnloadable(hs)
+
+OkHost(sect, name) == H(sect, name, "cert.pem", "key.pem")
+OwnName == [ main_hosts |-> "m1", ping_hosts |-> "p1", speedtest_hosts |-> "s1", reverse_proxy_hosts |-> "r1" ]
+
+Count(w, k) == Cardinality({ i \in DOMAIN w : w[i] = k })
+
+(* The name "hd" placed into the lists named by `w` (list indices, repeats = twice in the same list).
+   Background: "full"  every list also has a host of its own, before the duplicate;
+               "first" the same, the duplicate comes first;
+               "bare"  only main_hosts has a host of its own (and only if "hd" is not put there). *)
+RECURSIVE DupFrom(_, _, _)
+DupFrom(w, bg, k) ==
+    IF k > 4 THEN << >>
+    ELSE LET n == Count(w, k)
+             own == IF bg \in { "full", "first" } \/ (k = 1 /\ n = 0) THEN << OkHost(HostLists[k], OwnName[HostLists[k]]) >> ELSE << >>
+             dups == [ i \in 1..n |-> OkHost(HostLists[k], "hd") ]
+         IN (IF bg = "first" THEN dups \o own ELSE own \o dups) \o DupFrom(w, bg, k + 1)
+
+DupPlaces == { w \in [1..2 -> 1..4] : w[1] <= w[2] }                               \* all 10 pairs of lists (a list with itself included)
+             \cup { << 1, 2, 3 >>, << 1, 2, 4 >>, << 1, 3, 4 >>, << 2, 3, 4 >>, << 1, 2, 3, 4 >>, << 3, 3, 4 >>, << 2, 4, 4 >> }
+DupBackgrounds == { "full", "first", "bare" }
+
+Short == [ main_hosts |-> "main", ping_hosts |-> "ping", speedtest_hosts |-> "speedtest", reverse_proxy_hosts |-> "rp" ]
+RECURSIVE PlaceName(_)
+PlaceName(w) == IF Len(w) = 1 THEN Short[HostLists[w[1]]] ELSE Short[HostLists[w[1]]] \o "+" \o PlaceName(Tail(w))
+
+DupVariants == { [ name |-> "dup:" \o PlaceName(w) \o ":" \o bg, cls |-> "dup:" \o PlaceName(w), hs |-> DupFrom(w, bg, 1) ] : w \in DupPlaces, bg \in DupBackgrounds }
+
+\* one unloadable host in list k (alone in the list, or after a good one), all other lists populated
+BadHostKinds == [ certGarbage |-> << "garbage.pem", "key.pem" >>, keyGarbage |-> << "cert.pem", "garbage.pem" >>,
+              certMissing |-> << "nonexistent.pem", "key.pem" >>, keyIsCert |-> << "cert.pem", "cert.pem" >>,
+              certIsKey |-> << "key.pem", "key.pem" >> ]
+RECURSIVE BadFrom(_, _, _, _)
+BadFrom(kb, kind, second, k) ==
+    IF k > 4 THEN << >>
+    ELSE (IF k # kb THEN << OkHost(HostLists[k], OwnName[HostLists[k]]) >>
+          ELSE (IF second THEN << OkHost(HostLists[k], OwnName[HostLists[k]]) >> ELSE << >>)
+               \o << H(HostLists[k], "hb", BadHostKinds[kind][1], BadHostKinds[kind][2]) >>)
+         \o BadFrom(kb, kind, second, k + 1)
+BadVariants == { [ name |-> "bad:" \o Short[HostLists[k]] \o ":" \o kind \o (IF second THEN ":second" ELSE ""),
+                     cls |-> "bad:" \o Short[HostLists[k]] \o ":" \o kind, hs |-> BadFrom(k, kind, second, 1) ] :
+                   k \in 1..4, kind \in DOMAIN BadHostKinds, second \in BOOLEAN }
+
+CoreVariants == {
+    [ name |-> "ok1", cls |-> "ok1",   hs |-> << OkHost("main_hosts", "h1") >> ],
+    [ name |-> "ok2", cls |-> "ok2",   hs |-> << OkHost("main_hosts", "h1"), OkHost("main_hosts", "h2") >> ],
+    [ name |-> "okAll", cls |-> "okAll", hs |-> << H("main_hosts", "h1", "both.pem", "both.pem"), OkHost("ping_hosts", "h2"), OkHost("speedtest_hosts", "h3"), OkHost("reverse_proxy_hosts", "h4") >> ],
+    [ name |-> "okMany", cls |-> "okMany", hs |-> << OkHost("main_hosts", "h1"), OkHost("main_hosts", "h2"), OkHost("ping_hosts", "h3"), OkHost("ping_hosts", "h4"),
+                                   OkHost("speedtest_hosts", "h5"), OkHost("speedtest_hosts", "h6"), OkHost("reverse_proxy_hosts", "h7"), OkHost("reverse_proxy_hosts", "h8") >> ],
+    [ name |-> "okCase", cls |-> "okCase", hs |-> << OkHost("main_hosts", "h1"), OkHost("ping_hosts", "H1"), OkHost("speedtest_hosts", "h1.") >> ],    \* different names, not duplicates
+    [ name |-> "dupMain", cls |-> "dupMain",     hs |-> << OkHost("main_hosts", "h1"), OkHost("main_hosts", "h1") >> ],
+    [ name |-> "dupMainPing", cls |-> "dupMainPing", hs |-> << OkHost("main_hosts", "h1"), OkHost("ping_hosts", "h1") >> ],
+    [ name |-> "certMissing", cls |-> "certMissing", hs |-> << H("main_hosts", "h1", "nonexistent.pem", "key.pem") >> ],
+    [ name |-> "keyMissing", cls |-> "keyMissing",  hs |-> << H("main_hosts", "h1", "cert.pem", "nonexistent.pem") >> ],
+    [ name |-> "certGarbage", cls |-> "certGarbage", hs |-> << H("main_hosts", "h1", "garbage.pem", "key.pem") >> ],
+    [ name |-> "certIsKey", cls |-> "certIsKey",   hs |-> << H("main_hosts", "h1", "key.pem", "key.pem") >> ],
+    [ name |-> "keyGarbage", cls |-> "keyGarbage",  hs |-> << H("main_hosts", "h1", "cert.pem", "garbage.pem") >> ],
+    [ name |-> "keyIsCert", cls |-> "keyIsCert",   hs |-> << H("main_hosts", "h1", "cert.pem", "cert.pem") >> ],
+    [ name |-> "certBadBase64", cls |-> "certBadBase64", hs |-> << H("main_hosts", "h1", "badb64.pem", "key.pem") >> ] }
+CoreHostNames == { v.name : v \in CoreVariants }
+
+HostVariants == CoreVariants \cup DupVariants \cup BadVariants
+
+Hosts == [ n \in { v.name : v \in HostVariants } |->
+             LET hv == CHOOSE v \in HostVariants : v.name = n
+                 hs == hv.hs IN
+             [ hs |-> hs, cls |-> hv.cls, dup |-> HostsDup(hs), unloadable |-> HostsUnloadable(hs),
+               stg |-> IF HostsMissingFile(hs) THEN "parse" ELSE IF ~ HostsAccepted(hs) THEN "validate" ELSE "none" ] ]
+
+\* [reverse_proxy] variants: the text of the section, and the same as plain values for the builder (bld = FALSE: only expressible as text)
+RpText(addr, mask, extra) == "[reverse_proxy]\nserver_address = \"" \o addr \o "\"\npath_mask = \"" \o mask \o "\"\n" \o extra
+RpRow(addr, mask, extra, valid) == [ text |-> RpText(addr, mask, extra), valid |-> valid, stg |-> IF valid THEN "none" ELSE "validate", bld |-> TRUE, addr |-> addr, mask |-> mask ]
+Rp == [ absent      |-> [ text |-> "", valid |-> TRUE, stg |-> "none", bld |-> TRUE, addr |-> "", mask |-> "" ],
+        valid       |-> RpRow("127.0.0.1:8080", "/api", "", TRUE),
+        validH3     |-> RpRow("[::1]:8080", "/", "h3_backward_compatibility = true\n", TRUE),
+        validDeep   |-> RpRow("192.0.2.9:1", "/a b/c/", "", TRUE),
+        port0       |-> RpRow("127.0.0.1:0", "/api", "", FALSE),
+        port0v6     |-> RpRow("[2001:db8::2]:0", "/", "", FALSE),
+        maskEmpty   |-> RpRow("127.0.0.1:8080", "", "", FALSE),
+        maskNoSlash |-> RpRow("127.0.0.1:8080", "api/", "", FALSE),
+        maskBare    |-> RpRow("127.0.0.1:8080", "api", "", FALSE),
+        maskSpace   |-> RpRow("127.0.0.1:8080", " /api", "", FALSE),
+        addrBad     |-> [ text |-> "[reverse_proxy]\nserver_address = \"localhost\"\npath_mask = \"/api\"\n", valid |-> FALSE, stg |-> "parse", bld |-> FALSE, addr |-> "", mask |-> "" ],
+        noMask      |-> [ text |-> "[reverse_proxy]\nserver_address = \"127.0.0.1:8080\"\n", valid |-> FALSE, stg |-> "parse", bld |-> FALSE, addr |-> "", mask |-> "" ] ]
 
 ProtoNames == { "http1", "http2", "quic" }
 ProtoChoices == (SUBSET ProtoNames) \cup { { "absent" } }
@@ -549,11 +646,11 @@ VpnText(r) ==
     \o ProtoText(r.protos)
 
 StartInit ==
-    /\ row \in Rows /\ stage = "parse_settings" /\ verdict = "none"
+    /\ row \in Rows /\ stage = "parse_settings" /\ verdict = "none" /\ seen = {} /\ lst = 1
     /\ file = "none" /\ doc = "none" /\ idx = 0 /\ clients = << >> /\ outcome = "none" /\ registry = {} /\ exported = << >>
 
-StartRefuse(why) == verdict' = "refuse" /\ stage' = why /\ UNCHANGED << row, cvars >>
-Advance(s) == stage' = s /\ UNCHANGED << row, verdict, cvars >>
+StartRefuse(why) == verdict' = "refuse" /\ stage' = why /\ UNCHANGED << row, seen, lst, cvars >>
+Advance(s) == stage' = s /\ UNCHANGED << row, verdict, seen, lst, cvars >>
 
 \* toml::from_str::<Settings>: required table missing, unparsable reverse-proxy section
 ParseSettingsFail == stage = "parse_settings" /\ (row.protos = { "absent" } \/ Rp[row.rp].stg = "parse") /\ StartRefuse("refused_parse_settings")
@@ -568,19 +665,40 @@ ValidateCredsFail  == stage = "validate_settings" /\ Rp[row.rp].valid /\ row.pro
                       /\ row.creds = "absent" /\ ~ Listen[row.listen].loopback /\ StartRefuse("refused_no_credentials")
 ValidateSettingsOk == stage = "validate_settings" /\ Rp[row.rp].valid /\ row.protos # {}
                       /\ ~ (row.creds = "absent" /\ ~ Listen[row.listen].loopback) /\ Advance("validate_hosts")
-\* TlsHostsSettings::validate: every host loadable, names unique
-ValidateHostsFail == stage = "validate_hosts" /\ (Hosts[row.hosts].dup \/ Hosts[row.hosts].unloadable) /\ StartRefuse("refused_hosts")
-ValidateHostsOk   == stage = "validate_hosts" /\ ~ (Hosts[row.hosts].dup \/ Hosts[row.hosts].unloadable)
-                     /\ verdict' = "start" /\ stage' = "started" /\ UNCHANGED << row, cvars >>
+(* TlsHostsSettings::validate: the four lists in turn (main, ping, speedtest, reverse proxy); every host of the
+   list is loaded and its name inserted into the one set that is handed from list to list, so a name is
+   compared with every name before it - in the same list and in all earlier lists.                          *)
+ListOf(k) == SelectSeq(Hosts[row.hosts].hs, LAMBDA h : h.sect = HostLists[k])
+NamesOf(l) == { l[i].name : i \in DOMAIN l }
+ListBad(l) == \/ \E i \in DOMAIN l : HostUnloadable(l[i])
+              \/ \E i, j \in DOMAIN l : i < j /\ l[i].name = l[j].name
+              \/ NamesOf(l) \cap seen # {}
+ValidateListFail == stage = "validate_hosts" /\ lst <= 4 /\ ListBad(ListOf(lst)) /\ StartRefuse("refused_hosts")
+ValidateListOk   == stage = "validate_hosts" /\ lst <= 4 /\ ~ ListBad(ListOf(lst))
+                    /\ seen' = seen \cup NamesOf(ListOf(lst)) /\ lst' = lst + 1
+                    /\ UNCHANGED << row, stage, verdict, cvars >>
+ValidateHostsOk  == stage = "validate_hosts" /\ lst = 5
+                    /\ verdict' = "start" /\ stage' = "started" /\ UNCHANGED << row, seen, lst, cvars >>
 
 StartNext == ParseSettingsFail \/ ParseSettingsOk \/ ParseHostsFail \/ ParseHostsOk
              \/ ValidateRpFail \/ ValidateProtoFail \/ ValidateCredsFail \/ ValidateSettingsOk
-             \/ ValidateHostsFail \/ ValidateHostsOk
+             \/ ValidateListFail \/ ValidateListOk \/ ValidateHostsOk
 
 StartDone == verdict # "none"
 
 \* the staged start-up implements the table
 RefuseTable == StartDone => verdict = StartVerdict(row)
+\* ... and the threaded set really is "all names seen so far"
+SeenAll == stage = "validate_hosts" =>
+             seen = UNION { NamesOf(SelectSeq(Hosts[row.hosts].hs, LAMBDA h : h.sect = HostLists[k])) : k \in 1..(lst - 1) }
+
+\* what the settings alone (builder, Settings::validate) must refuse, and the hosts file alone (builder, reload)
+SettingsVerdict(r) ==
+    IF \/ r.creds = "absent" /\ ~ Listen[r.listen].loopback
+       \/ r.protos = {} \/ r.protos = { "absent" }
+       \/ ~ Rp[r.rp].valid
+    THEN "refuse" ELSE "start"
+HostsVerdict(n) == IF Hosts[n].dup \/ Hosts[n].unloadable THEN "refuse" ELSE "accept"
 
 StartTypeOK == verdict \in { "none", "refuse", "start" }
 
